@@ -18,9 +18,12 @@ class Effects:
     self.skipped: typing.List[str] = []
     self.env: typing.Dict[str, typing.Any] = {}
     self.stopped: typing.Optional[str] = None
+    self.trace: typing.List[typing.Tuple] = []      # ("call", name, args, node) and ("skipped-if", node), in execution order
 
 
-def collect(ix: Index, f: FuncInfo, stmts, env: typing.Dict[str, typing.Any], receiver: str) -> Effects:
+def collect(ix: Index, f: FuncInfo, stmts, env: typing.Dict[str, typing.Any], receiver) -> Effects:
+  """receiver: the text of the receiver whose calls are recorded, or a tuple of such texts."""
+  receivers = (receiver,) if isinstance(receiver, str) else tuple(receiver)
   fe = FuncEval(ix)
   ce = _CallingConstEval(ix, fe, f, 0, None)
   out = Effects()
@@ -42,12 +45,14 @@ def collect(ix: Index, f: FuncInfo, stmts, env: typing.Dict[str, typing.Any], re
           t = ev(st.test)
         except (NotConst, Raised, Exception):
           out.skipped.append(unparse(st.test)[:80])
+          out.trace.append(("skipped-if", st))
           continue
         run(st.body if t else st.orelse)
       elif isinstance(st, ast.Expr) and isinstance(st.value, ast.Call):
         c = st.value
-        if isinstance(c.func, ast.Attribute) and unparse(c.func.value) == receiver:
+        if isinstance(c.func, ast.Attribute) and unparse(c.func.value) in receivers:
           out.calls.append((c.func.attr, [arg(a) for a in c.args], c))
+          out.trace.append(("call", c.func.attr, out.calls[-1][1], c))
       elif isinstance(st, ast.Assign) and len(st.targets) == 1 and isinstance(st.targets[0], ast.Name):
         try:
           env[st.targets[0].id] = ev(st.value)
